@@ -2,6 +2,6 @@
 
 package main
 
-func hoStart()                          {}
-func hoReport(leakedSockets int) string { return "" }
-func hoArmDupFault() bool               { return false }
+func hoStart()                                      {}
+func hoReport(leakedSockets, unanswered int) string { return "" }
+func hoArmDupFault() bool                           { return false }
